@@ -100,6 +100,10 @@ def gen(tier, seed, shard, nshards):
     for k in range(n["weighted"] // 3):
         if k % nshards == shard:
             yield "library-chain-edited", {"k": k, "seed": seed}
+    for k in range(96 if tier == "quick" else 2400):
+        if k % nshards == shard:
+            rngI = util.rng_for("C10", seed, "denseI", k)
+            yield "sampled-dagI", {"masks": _gc.dense_dag(("C10", seed, "densedag", k)), "I": int(rngI.integers(0, 64))}
     for k in range(n["sampled"]):
         if k % nshards == shard:
             out = _gc.sampled_dag(("C10", seed, "sd", k), 6, 12, max_edges=11)
